@@ -23,6 +23,8 @@ import Ioc.Generated.Facts
 import IocProofs.Lemmas.SemCreate
 import IocProofs.Lemmas.SemRefresh
 import IocProofs.Lemmas.M2Lookups
+import IocProofs.Lemmas.SemFacAccess
+import IocProofs.Lemmas.SemMeta
 namespace Ioc.C02
 open Ioc Ioc.M2
 
@@ -267,5 +269,28 @@ example : Sem.isSelfModel 77 (fun k => if k == 0 then 77 else 10 + k) (some 2) =
 theorem C02_lookup_terminates (sc : Scen) (st : St) (n : Nat) (hs : st.stack = []) (hnr : st.status ≠ .running) :
     (lookupAfter sc st n).status ≠ .running :=
   lookupAfter_terminates sc st n hs hnr
+
+/-- every declared injection point stays a point of its holder: the IDs (regenerated: Field.ID / Holder.ID / Property.ID /
+    info) of two same-named fields in DIFFERENT embedded structs differ — a field's ID contains its holder's ID, which for an
+    embedded holder contains the embedding path — and SetProperties (regenerated, `C07_code_SetProperties`) appends EVERY
+    property it is handed to the group of its type, whatever its ID -/
+theorem C02_code_points_kept (holderID typeName metaID fieldName fieldID info pt tag tagStr : String) (isEmbed : Bool) :
+    Go.run (Sem.idPrims holderID typeName metaID fieldName fieldID info pt tag tagStr isEmbed) Progs.field_ID [] () =
+      some (.str (holderID ++ ".Field(" ++ fieldName ++ ")"), ()) ∧
+    Go.run (Sem.idPrims holderID typeName metaID fieldName fieldID info pt tag tagStr isEmbed) Progs.holder_ID [] () =
+      some (.str (if isEmbed then holderID ++ ".Embed(" ++ typeName ++ ")" else metaID), ()) ∧
+    Go.run (Sem.idPrims holderID typeName metaID fieldName fieldID info pt tag tagStr isEmbed) Progs.prop_ID [] () =
+      some (.str (fieldID ++ info), ()) ∧
+    Go.run (Sem.idPrims holderID typeName metaID fieldName fieldID info pt tag tagStr isEmbed) Progs.prop_info [] () =
+      some (.str (".Type(" ++ pt ++ ").Tag(" ++ tag ++ ":'" ++ tagStr ++ "')"), ()) :=
+  Sem.ids_sem holderID typeName metaID fieldName fieldID info pt tag tagStr isEmbed
+
+/-- SetProperties appends EVERY property it is handed, in order, to the group of its type — none is dropped for its name, tag
+    or ID (the same regenerated function as in `C07_code_SetProperties`, stated here because "every required point is
+    populated" needs every declared point to BE a point) -/
+theorem C02_code_SetProperties_keeps_all (idOf nameOf : Nat → String) (isComp : Nat → Bool) (ps : List Nat) (w : Sem.MW) :
+    Go.run (Sem.metaPrims idOf nameOf isComp) Progs.meta_SetProperties [.list (ps.map (fun i => Go.Val.ref i 20))] w =
+      some (.tuple [], { w with comp := w.comp ++ ps.filter isComp, conf := w.conf ++ ps.filter (fun i => !isComp i) }) :=
+  Sem.metaSetProperties_sem idOf nameOf isComp ps w
 
 end Ioc.C02
